@@ -72,7 +72,7 @@ def main(argv):
         events.update(obs.events)
         regimes.update(obs.regimes)
         for k in obs.nt_keys:
-            nt.add(k[:12] if len(k) >= 12 else jhash(k, 12))
+            nt.add(k[:12])
         for v in obs.viol:
             kinds[v["kind"]] += 1
             if len(violations) < 60:
